@@ -42,7 +42,8 @@ def install(ctx, repo, probes):
     for u in ("hours", "minutes", "seconds"):
         ctx.target("decimal/" + u)
     ctx.target("weeks", "negative", "empty", "alt/ext", "alt/basic",
-               "alt/ordinal", "decimal/non-final-unit", "point-decimal")
+               "alt/ordinal", "decimal/non-final-unit", "point-decimal",
+               "after-rejected-input")
 
 
 def comps(d):
@@ -117,6 +118,12 @@ def run_case(ctx, repo, case):
     elif op == "spelled":
         ctx.ev("spelled")
         text, want = case["text"], case["want"]
+        if case.get("poison"):
+            # a refused expression must leave the (re-used) parser unchanged
+            try:
+                P.parse(case["poison"])
+            except ValueError:
+                ctx.cls("after-rejected-input")
         try:
             p = P.parse(text)
         except Exception as exc:
@@ -326,6 +333,10 @@ def workload(ctx, repo):
         if k % 4 < 3:
             text, want = make_spelled(rng)
             case = {"op": "spelled", "text": text, "want": want}
+            if k % 5 == 0:
+                case["poison"] = rng.choice((
+                    "-P1X", "-P0004-03-02T01:02:03", "-PT1e999S", "-P",
+                    "-garbage", "P1X", "-P1DT", "-PT5M3H", "--P1D"))
             ctx.case = case
             if k % 997 == 2:
                 ctx.sample(case)
